@@ -101,6 +101,17 @@ def make_cases(tier, seed, n_pairs=None, maxlen=None):
         a = dom_wfsa.random_wfsa(rng, q, sigma, m)
         b = dom_wfsa.random_wfsa(rng, q, sigma, m) if i % 3 else corpus[i % len(corpus)][1]
         pairs.append((f"randA{seed}_{i}", a, f"randB{seed}_{i}" if i % 3 else corpus[i % len(corpus)][0], b))
+    # operands whose state names look like the tags rename_apart uses ((0, q) / (1, q)): a renaming that does not tag BOTH operands
+    # would conflate states (strengthened after the independently seeded change C12-2)
+    def retag(a, t):
+        f = lambda q: (t, q)   # noqa: E731
+        return type(a)(frozenset(f(q) for q in a.states), {f(q): w for q, w in a.start.items()}, {f(q): w for q, w in a.stop.items()},
+                       [(f(i), l, f(j), w) for i, l, j, w in a.arcs])
+    for i in range(4 if quick else 40):
+        a = dom_wfsa.random_wfsa(rng, q, sigma, m)
+        b = dom_wfsa.random_wfsa(rng, q, sigma, m)
+        pairs.append((f"tagclashL{seed}_{i}", retag(a, 1), f"plainB{seed}_{i}", b))
+        pairs.append((f"plainA{seed}_{i}", a, f"tagclashR{seed}_{i}", retag(b, 0)))
     configs = CONFIGS_QUICK if quick else CONFIGS_THOROUGH
     cases = []
     for i, (na, a, nb, b) in enumerate(pairs):
